@@ -713,6 +713,9 @@ func (c *c07Cmp) outsideFeature(b ref.YDoc) bool {
 
 func (p c07) Run(w *mon.Worker, idx int) mon.Result {
 	r := w.Rand(idx)
+	if idx%5 == 4 {
+		return c07LineCase(w, r)
+	}
 	o := gen.YDefault()
 	o.RootScalars, o.EmptyDocs = false, false
 	o.MaxDocs = 1
